@@ -31,6 +31,11 @@ def cases(tier, rng):
             for r in range(0, 8):
                 for sur in (0, 1):
                     yield {'k': 'hash', 'Nb': Nb, 'Noc': 'Nb', 'ml': ml + sur, 'L': 8 * ml - r, 'keyc': 'absent', 'opt': ''}
+        # bit lengths far shorter than the buffer, including L = 0 with a non-empty buffer (the quantifier is 0 <= L <= 8|M|)
+        for ml in (1, 5, nb, nb + 1, 3 * nb):
+            for L in sorted({0, 1, 7, 8, 9, 8 * nb, 8 * nb + 1} | {8 * ml - 8}):
+                if 0 <= L <= 8 * ml:
+                    yield {'k': 'hash', 'Nb': Nb, 'Noc': 'Nb', 'ml': ml, 'L': L, 'keyc': 'absent' if L else 'short', 'opt': ''}
         for keyc in ('empty', 'short', 'block-1', 'block', 'block+1', 'longer'):
             for ml in (0, 1, nb, 2 * nb + 3):
                 for Noc in ('Nb', 'Nb+8', '8'):
